@@ -1,5 +1,5 @@
 (** C01 — the compiled seccomp filter implements the declared policy exactly. *)
-From GS Require Import Base.Str Seccomp.Check Seccomp.CheckProofs Seccomp.Asm Seccomp.PolicyProofs Seccomp.BuildProofs.
+From GS Require Import Base.Str Seccomp.Check Seccomp.CheckProofs Seccomp.Asm Seccomp.PolicyProofs Seccomp.BuildProofs Seccomp.BuildLong.
 Open Scope N_scope.
 
 (** A filter accepted by the validator answers the policy's verdict for every
@@ -11,25 +11,19 @@ Theorem C01_filter_sound : forall p pol, check_filter p pol = true ->
 Proof. exact filter_sound. Qed.
 Print Assumptions C01_filter_sound.
 
-(** The full statement is
-      forall tbl b pol, policy_of tbl b = Some pol ->
-        exists f, build tbl b = Some f /\ forall d, run f d = Some (verdict pol (sd_arch d) (sd_nr d))
-    (every policy, any list lengths).  Proved below with the bound 256 on each list in the statement;
-    what is missing is the insertion invariant of Program.Assemble's long-jump rewriting.
-    Builder.Build (group construction, Program.Assemble, prologue, export) is correct once and for all
-    for every policy whose allow and trace lists hold at most 256 numbers each: it produces a filter,
-    and the filter answers the policy's verdict on every seccomp_data.  Longer lists make Assemble
-    insert early returns; those filters are only covered per built filter, by C01_filter_sound. *)
-Theorem C01_build_correct_partial : forall tbl b pol, policy_of tbl b = Some pol ->
-  (length (p_allow pol) <= 256)%nat -> (length (p_trace pol) <= 256)%nat ->
+(** Builder.Build (group construction, Program.Assemble with its long-jump rewriting, prologue, export) is
+    correct once and for all: for EVERY policy (any list lengths) it produces a filter, and the filter
+    answers the policy's verdict on every seccomp_data. *)
+Theorem C01_build_correct : forall tbl b pol, policy_of tbl b = Some pol ->
   exists f, build tbl b = Some f /\ forall d, run f d = Some (verdict pol (sd_arch d) (sd_nr d)).
-Proof. exact build_correct. Qed.
-Print Assumptions C01_build_correct_partial.
+Proof. exact build_correct_any. Qed.
+Print Assumptions C01_build_correct.
 
-(** the instructions Program.Assemble yields for such a policy, in closed form *)
-Theorem C01_assemble_closed_form : forall allow trace d, (length allow <= 256)%nat -> (length trace <= 256)%nat ->
-  assemble_prog (src_prog allow trace d) = Some (gcode allow RET_ALLOW ++ gcode trace RET_TRACE ++ [PRet d]).
-Proof. exact assemble_short. Qed.
+(** the instructions Program.Assemble yields, in closed form: each group is cut into chunks of 255
+    comparisons, every chunk followed by a copy of the group's return (the last chunk has up to 256) *)
+Theorem C01_assemble_closed_form : forall allow trace d,
+  assemble_prog (src_prog allow trace d) = Some (gcodeLL allow RET_ALLOW ++ gcodeLL trace RET_TRACE ++ [PRet d]).
+Proof. exact assemble_any. Qed.
 Print Assumptions C01_assemble_closed_form.
 
 (** what the verdict says, spelled out *)
